@@ -19,7 +19,7 @@ RULE = ("the entropy function handed to the library is a recording stream (event
 ASSUMPTIONS = ["the model encodes the anchored mechanism (top bitlen(n-2) bits of bitlen(n-2)//8+1 bytes, +1, reject >= n)",
                "uniformity is derived: equal split of accepted first chunks + fresh bytes after rejection (observed in the log)"]
 REQUIRED = {"quick": ["randrange.enum", "randrange.adversarial", "randrange.rejected_ge2", "generate", "sign.entropy", "sign_digest.entropy",
-                      "sign_number.entropy", "replay_same_stream", "key_then_nonce_disjoint", "seed.trytryagain", "seed.overshoot", "prng", "default_entropy.fork", "concurrent_calls", "reentrant_calls", "entropy_source_fails", "default_entropy.threads"]}
+                      "sign_number.entropy", "replay_same_stream", "key_then_nonce_disjoint", "seed.trytryagain", "seed.overshoot", "prng", "default_entropy.fork", "concurrent_calls", "reentrant_calls", "entropy_source_fails", "default_entropy.threads", "key_history"]}
 EXHAUSTIVE = {"quick": ["randrange: all first chunks for every n in [2,80], n within +-2 of 2^j (j<=12): exact output distribution"],
               "thorough": ["randrange: all first chunks for every n in [2,512], sampled n to 2^12, n within +-2 of 2^j (j<=16)"]}
 
@@ -40,6 +40,7 @@ def shards(tier, seed):
     out.append(("concurrent", dict(kind="concurrent", runs=120 if q else 1500)))
     out.append(("default_entropy", dict(kind="default_entropy", rounds=6 if q else 40)))
     out.append(("failing_source", dict(kind="failing_source")))
+    out.append(("key_history", dict(kind="key_history", cnames=["NIST192p", "SECP112r2", "NIST521p"] if q else [c.name for c in lib.ALL_CURVES])))
     out.append(("default_entropy_threads", dict(kind="default_entropy_threads", runs=60 if q else 800)))
     return out
 
@@ -274,6 +275,47 @@ def run(ctx, name, kind, **kw):
                     jobs.append((fname, f, (seed, n), f(seed, n)))
         S.concurrent_purity(ctx, S.codes_of(util), jobs, rng, kw["runs"])
         S.reentrant_purity(ctx, S.codes_of(util), jobs, rng, max(12, kw["runs"] // 6))
+    elif kind == "key_history":
+        # ONE key object signs several times: each nonce is the model's draw from the stream handed to THAT call - whatever the object
+        # signed before (same stream content with another message, another stream with the same message, an interleaved failure)
+        for cname in kw["cnames"]:
+            curve = lib.BY_NAME[cname]
+            dom = lib.dom_of(curve)
+            n = dom.n
+            d = rng.randrange(1, n)
+            sk = ecdsa.SigningKey.from_secret_exponent(d, curve, hashlib.sha256)
+            streams = [bytes(rng.getrandbits(8) for _ in range(6 * (dom.nbytes() + 1))) for _ in range(3)]
+            msgs = [b"history %d" % i for i in range(4)]
+            seq = [(0, 0), (0, 1), (0, 2), (1, 2), (0, 2), (2, 0), (2, 0), (0, 0), (1, 3), (0, 3)]       # (stream index, message index)
+            for step, (si, mi) in enumerate(seq):
+                data = streams[si]
+                m = model_randrange(n, data)
+                if m is None:
+                    continue
+                dg = hashlib.sha256(msgs[mi]).digest()
+                e = ecdsa_ref.digest_to_e(dom, dg, True)
+                st = sigs.Stream(data)
+                entry = ("sign", "sign_digest", "sign_number")[step % 3]
+                try:
+                    if entry == "sign":
+                        r, s_ = sk.sign(msgs[mi], entropy=st, sigencode=lambda r, s, o: (r, s))
+                    elif entry == "sign_digest":
+                        r, s_ = sk.sign_digest(dg, entropy=st, sigencode=lambda r, s, o: (r, s), allow_truncate=True)
+                    else:
+                        r, s_ = sk.sign_number(e, entropy=st)
+                except Exception as ex:
+                    ctx.violation("sign_with_entropy_raises", "%s step %d %s raised %s: %s" % (cname, step, entry, type(ex).__name__, ex), dict(curve=cname))
+                    continue
+                k_used = (e + r * d) * nt.inv(s_, n) % n
+                ctx.case("key_history", key="%s|%d" % (cname, step), nontrivial=True)
+                ctx.check(k_used == m[0] and st.pos == m[1], "nonce_depends_on_what_the_key_signed_before",
+                          "%s: step %d of %r on one key object (%s): nonce %d, the stream handed to this call gives %d; bytes consumed %d, model %d" % (cname, step, seq, entry, k_used, m[0], st.pos, m[1]),
+                          dict(curve=cname, d=d, step=step, seq=seq))
+                if step == 4:
+                    try:
+                        sk.sign(b"fails", entropy=lambda nb: (_ for _ in ()).throw(OSError("no entropy")))
+                    except OSError:
+                        pass
     elif kind == "failing_source":
         # an entropy source that fails (raises) on the n-th request: the failure is the caller's to see - no value may be returned,
         # and certainly not one drawn from somewhere else
